@@ -9,6 +9,10 @@ NOTE = ("Trusted base: go/types, x/tools go/ssa v0.29.0, CHA/VTA call graphs (no
         "The check proves the named structural clauses for all paths of the analysed code; it does not prove the behaviour as a whole.")
 
 CLAIMS = {
+ "C01": dict(
+   text="Structural clauses of the wire codec: NumSet/Flag/MailboxAttr reach writeString only on the success edge of their validity test and otherwise set the encoder error (all paths); isValidFlag evaluated on one representative per byte/position class against the RFC 9051 flag grammar (34 rows); every Encoder.Quoted call site validated/constant/single rune; writer and reader literal thresholds agree (the writer's sync/non-sync choice under the capabilities the server advertises is always accepted by acceptLiteral; all size limits are 4096); the decoder's open-literal typestate (flag set only by LiteralReader, cleared only by cancel, tested before every byte read, reader limited to the announced size). 'other': these are necessary conditions; byte-for-byte round-trip equality over all strings, UTF-7 and number formatting are not decided.",
+   technique="must-pass-through dataflow over go/ssa, finite-domain evaluation of predicate code on the typed AST, who-may-write rules",
+   design="§4 C01"),
  "C04": dict(
    text="Structural clauses of server command framing, for all paths: exactly one tagged completion per dispatched command (count of tag-carrying writer calls per path against the nil-ness of the returned error, in readCommand and every self-completing handler, with lemma L1 on the decoder proved on every run); a literal opened on the server decoder is drained, refused only when known synchronising, or refused with the connection terminated, and a refusal puts the decoder in its error state (interprocedural through the CheckBufferedLiteralFunc callback and helper summaries); continuation requests only from literal acceptance/IDLE/AUTHENTICATE after their gates; response-encoder (write lock) pairing and exclusive access to the connection's writer; line discard before completion. 'other': necessary structural conditions, not a proof that the tokenizer never mis-splits bytes.",
    technique="path-sensitive must/may dataflow over go/ssa (completion counting x error nil-ness, literal typestate with interprocedural refusal summaries), who-may-call and acquire/release pairing rules",
